@@ -237,6 +237,10 @@ def run_case(ck, desc):
         forms = [("column", view_before.reshape(-1, 1).copy()), ("0-d", np.array(view_before[0]))]
         if n_el % 2 == 0:
             forms.append(("2-d", view_before.reshape(2, -1).copy()))
+            if n_el >= 4:
+                c2 = view_before.reshape(2, -1)
+                forms.append(("2-d-fortran", np.asfortranarray(c2)))  # same values, column-major memory
+                forms.append(("2-d-transposed-view", np.ascontiguousarray(c2.T).T))
         for label, arr in forms:
             try:
                 o2 = np.asarray(arr_call(arr))
